@@ -2,8 +2,8 @@
 # seed_detect_par.sh <seed-dir> <tier> <check ids...>: like seed_detect.sh, but without touching /repo:
 # the seeded change is applied to a scratch worktree, the harness is built against it (copy of
 # /verif/harness with the replace directive pointing at the worktree) and handed to ./check through
-# VERIF_VH.  Several of these can run side by side (development aid; evidence files written by such
-# runs are NOT to be committed).
+# VERIF_VH.  Several of these can run side by side (development aid; the evidence of
+# such runs goes to a scratch directory).
 SD=$1; TIER=$2; shift 2
 export GOFLAGS=-mod=mod GOPROXY=off GOSUMDB=off GOTOOLCHAIN=local CGO_ENABLED=0
 GO=/root/go/pkg/mod/golang.org/toolchain@v0.0.1-go1.24.3.linux-amd64/bin/go
@@ -16,7 +16,8 @@ cp -r /verif/harness/. "$HD/" && cp "$WT/go.sum" "$HD/go.sum" && sed -i "s#=> /r
 TAG=$(basename $(dirname "$SD"))-$(basename "$SD")
 for P in "$@"; do
   L=/tmp/seed-detect-$TAG-$P.log
-  cd /verif && VERIF_VH="$HD/vh" timeout 3000 ./check $P --tier $TIER > $L 2>&1; RC=$?
+  mkdir -p "$HD/evidence"
+  cd /verif && VERIF_VH="$HD/vh" VERIF_EVIDENCE_DIR="$HD/evidence" timeout 3000 ./check $P --tier $TIER > $L 2>&1; RC=$?
   echo "seed=$TAG check=$P tier=$TIER rc=$RC $(grep -c '^VIOLATION' $L) violation(s)"
   grep -A1 "^VIOLATION\|^INCONCLUSIVE" $L | cut -c1-300 | head -4
 done
